@@ -411,6 +411,12 @@ MORE_STACKS = [
 ]
 
 
+# (round 5) macro names drawn from the literal: shape of the literal around the marker, kind of definition
+MNAME_SHAPES = [("whole", "", ""), ("affixed", "GREET", "ING"), ("word", "hello ", " there")]
+MNAME_DEFS = {"obj": "#define %s welcome back", "num": "#define %s 20", "param": "#define %s(a, b) a b",
+              "str": '#define %s "other text"', "empty": "#define %s"}
+
+
 def stack_name(st):
     return "/".join([st[0]] + st[1] + st[2])
 
@@ -469,6 +475,9 @@ def build_case(idx: int, lit, carrier: str, stack, cert_i: int) -> dict:
             ctx_terms.append(STMT_CTX[s][1](v))
     hdr: list = []
     item = build_item(idx, q, raw, carrier, stack, hdr)
+    if name.startswith("mname:"):
+        # (round 5) the header defines a macro whose NAME is the whole text of the literal / a word of it
+        hdr.append(MNAME_DEFS[name.split(":")[2]] % (mark(idx) if name.split(":")[1] == "word" else raw))
     kind = CARRIERS[carrier][4]
     value = literal_value(q, raw, json_rules=(kind == "jsonfile"))
     fmt_bad = False
@@ -647,6 +656,14 @@ def round4_combos(rng, tier: str):
             combos.append((lit, TEXT_CARRIERS[k % len(TEXT_CARRIERS)], plain))
             combos.append((lit, TEXT_CARRIERS[(k + 1 + k // len(TEXT_CARRIERS)) % len(TEXT_CARRIERS)], all_stacks[k % len(all_stacks)]))
             k += 1
+    # (round 5) literals whose whole text / one word is the name of a macro of the header
+    for shape, pre, post in MNAME_SHAPES:
+        for dk in MNAME_DEFS:
+            for ca in marker_carriers:
+                if thorough:
+                    combos.append(((f"mname:{shape}:{dk}", '"', pre, post), ca, plain))
+                combos.append(((f"mname:{shape}:{dk}", "'" if k % 5 == 0 else '"', pre, post), ca, all_stacks[k % len(all_stacks)]))
+                k += 1
     return combos
 
 
@@ -1193,6 +1210,80 @@ def run_watch(ck, tier: str) -> dict:
     return dict(cases=len(cases), failures=len(fails))
 
 
+# --------------------------------------------------------------------------- (round 5) macro names inside literals
+MN_HEADERS = [
+    ("object-like", "#define GREETING welcome back\n#define LIMIT 20\n#define m3 other\n#define text content\n#define color blue\n"
+                    "#define red green\n#define hi bye"),
+    ("parameters", "#define GREETING(a) hello a\n#define LIMIT(a, b) a b\n#define m3(x) x\n#define text(x) x\n#define color(x) x\n"
+                   "#define red(x) x\n#define hi(x) x"),
+    ("numeric+enum", "#define LIMIT 20\n#define m3 3\n#define text 7\n#define color 0\n#define red 1\n#define hi 5\n"
+                     "#enum GREETING 4 a b\n#enum Color RED GREEN"),
+    ("string-bodies", '#define GREETING "x"\n#define LIMIT "20"\n#define m3 "y"\n#define text "t"\n#define color "c"\n'
+                      '#define red "r"\n#define hi "h"'),
+]
+MN_STATEMENTS = [
+    'say "GREETING";', "say 'LIMIT';", 'say "hi GREETING LIMIT";', 'tellraw @a "GREETING";', 'tellraw @a {"text":"GREETING"};',
+    'tellraw @a {"text":"LIMIT","color":"red"};', 'tellraw @a ["hi",{"text":"m3","color":"red"}];',
+    'title @a title {"bold":true,"text":"GREETING.a"};', 'data merge entity @s {CustomName:"GREETING"};',
+    'data merge storage a:b {"m3":"GREETING",k:["LIMIT","hi"]};', 'give @s stone{display:{Name:"LIMIT"}} 1;',
+    'summon zombie ~ ~ ~ {"CustomName":"Color.RED"};', 'Text.tellraw(@a, "GREETING");', 'Text.title(@a, "LIMIT");', 'printf("m3");',
+    'Text.tellraw(@s, "hi &<red>LIMIT");', 'tellraw @a {"text":"x","hoverEvent":{"action":"show_text","contents":"GREETING"}};',
+    'me "LIMIT";', 'scoreboard players set @s[name="GREETING",tag="m3"] obj 1;', 'execute if entity @s[name="hi"] run say "hi";',
+    'Item.give(@s, "stone", nbt={"display":"LIMIT"});' if False else 'tellraw @a [{"text":"color"},{"text":"text"}];',
+    'Hardcode.repeat("zq", ()=>{ say "GREETING zq"; }, start=1, stop=3, step=1);',
+]
+MN_CONTEXTS = [
+    ("top", lambda i, b: b), ("function", lambda i, b: f"function mn{i}() {{ {b} }}"),
+    ("if/else", lambda i, b: f'function mn{i}() {{ if ($a == 1) {{ {b} }} else if ($b == 2) {{ {b} }} else {{ {b} }} }}'),
+    ("execute-run block", lambda i, b: f"function mn{i}() {{ execute as @a run {{ {b} say 1; }} }}"),
+    ("execute-run", lambda i, b: f"function mn{i}() {{ execute as @a at @s run {b} }}"),
+    ("class method", lambda i, b: f"class kmn{i} {{ function m() {{ {b} }} }}"),
+    ("while", lambda i, b: f"function mn{i}() {{ while ($i < 3) {{ {b} }} }}"),
+    ("switch", lambda i, b: f'function mn{i}() {{ switch ($s) {{ case 1: {b} case 2: say "GREETING"; }} }}'),
+    ("schedule", lambda i, b: f"function mn{i}() {{ schedule 5t {{ {b} }} }}"),
+    ("lazy", lambda i, b: f"@lazy function lzmn{i}(q) {{ {b} say $q; }}\nfunction mn{i}() {{ lzmn{i}(\"LIMIT\"); }}"),
+]
+
+
+def run_macro_names(ck, tier: str) -> dict:
+    """same program with / without a header whose macro names occur ONLY inside string literals of the program: the file maps
+    must be identical (a statement that is refused without the header is skipped)"""
+    progs = []
+    for si, stmt in enumerate(MN_STATEMENTS):
+        for ci, (cn, wrap) in enumerate(MN_CONTEXTS):
+            if tier != "thorough" and (si + ci) % 3 and cn not in ("top", "function"):
+                continue
+            if cn == "lazy" and ("Hardcode" in stmt):
+                continue
+            progs.append(dict(stmt=stmt, context=cn, src=wrap(len(progs), stmt)))
+    cert = cert_text(CERTS[0])
+    base = compile_batch([dict(src=p["src"], cert=cert) for p in progs], chunk=40)
+    good = [(p, r) for p, r in zip(progs, base) if r["ok"]]
+    n, fails, reported = 0, 0, set()
+    for hn, header in MN_HEADERS:
+        res = compile_batch([dict(src=p["src"], cert=cert, header=header) for p, _r in good], chunk=40)
+        for (p, rb), ra in zip(good, res):
+            n += 1
+            if ra["ok"] and ra["files"] == rb["files"]:
+                continue
+            fails += 1
+            if hn in reported:
+                continue
+            reported.add(hn)
+            diff = ({k: dict(without_header=rb["files"].get(k), with_header=ra["files"].get(k))
+                     for k in sorted(set(ra["files"]) | set(rb["files"])) if ra["files"].get(k) != rb["files"].get(k)}
+                    if ra["ok"] else dict(error=ra.get("error")))
+            ck.violation(dict(kind="macro-applied-inside-literal", header_kind=hn, header=header, src=p["src"], statement=p["stmt"],
+                              context=p["context"], jmc_txt=CERTS[0], differing_files=diff,
+                              theorem="C09_string_token_ignores_macros: a STRING token is pushed unchanged for every macro table",
+                              note="every macro name of the header occurs only inside string literals of the program: the output "
+                                   "must equal the output without the header", how="./check C09 --replay <this file>"))
+    if len(good) < len(progs) * 0.8:
+        ck.violation(dict(kind="generator-ineffective", what="macro-name stream: too many programs refused without header",
+                          refused=[p["src"] for p, r in zip(progs, base) if not r["ok"]][:5]), no_input=True)
+    return dict(programs=len(progs), compiled=len(good), headers=len(MN_HEADERS), comparisons=n, failures=fails)
+
+
 # --------------------------------------------------------------------------- main
 def main(tier: str) -> int:
     ck = Check(PROP, tier)
@@ -1273,6 +1364,7 @@ def main(tier: str) -> int:
         ck.violation(o)
 
     watch_info = run_watch(ck, tier)
+    mname_info = run_macro_names(ck, tier)
 
     # ---- correspondence: differing cases that the oracle does not explain
     silent = sorted(i for i in mism if i not in fails)
@@ -1323,7 +1415,9 @@ def main(tier: str) -> int:
                     json_file_cases=sum(1 for c in cases if c["carrier"] == "json-file"),
                     leaf_wrapper_cases={l: sum(1 for c in cases if l in c["ctxs"]) for l in LEAVES},
                     named_escape_cases=sum(1 for c in cases if G.names_table(c["raw"])),
-                    debug_watch=watch_info, proposed_known=sorted(PROPOSED_KNOWN)),
+                    debug_watch=watch_info, macro_names_round5=dict(
+                        mname_info, cases_in_main_stream=sum(1 for c in cases if c["lit"].startswith("mname:"))),
+                    proposed_known=sorted(PROPOSED_KNOWN)),
         correspondence="model line == real marker line (exact code points) for every modelled case; "
                        "diagnostic <-> diagnostic; plus decode-and-compare oracle on every real line",
     ))
@@ -1338,6 +1432,20 @@ def replay(path: str) -> int:
         print(json.dumps(obj, indent=1)[:3000])
         return 1
     res, = compile_batch([dict(src=obj["src"], cert=cert_text(obj["jmc_txt"]), header=obj.get("header"))])
+    if obj.get("kind") == "macro-applied-inside-literal":
+        base, = compile_batch([dict(src=obj["src"], cert=cert_text(obj["jmc_txt"]))])
+        same = res["ok"] and base["ok"] and res["files"] == base["files"]
+        print("header         :\n" + obj["header"])
+        print("program        :", obj["src"])
+        if not same:
+            for k in sorted(set(res.get("files", {})) | set(base.get("files", {}))):
+                if res.get("files", {}).get(k) != base["files"].get(k):
+                    print(f"  {k}\n    without header: {base['files'].get(k)!r}\n    with header   : {res.get('files', {}).get(k)!r}")
+            if not res["ok"]:
+                print("  with header: refused -", res.get("msg", res.get("error", ""))[:300])
+        print("verdict        :", "passes (same output with and without the header)" if same else
+              "FAILS: a macro of the header was applied inside a string literal")
+        return 0 if same else 1
     if "watch" in obj:
         w = obj["watch"]
         case = dict(line=w["line"], lit=w["lit"])
